@@ -44,6 +44,16 @@ def run(replay=None):
     for n in names:
         for j in range(per):
             fields.append((n, sc.rand_field(chk.rng, n, max_extent=(3 if thorough else 2) if j else 1, data_mode='nice' if j % 2 else 'any')))
+    # large payloads (several KiB: readers that switch to a bulk path for big blocks) and empty ones
+    for n, sz in (('strided.3.u64/array.3.f64', [8, 8, 8]), ('array.3.f64', 600), ('morton.2.u64.p/array.1.f32', [20, 17]), ('strided.2.u64/array.3.f32', [0, 3]), ('array.1.f32', 0),
+                  ('strided.2.u64/array.1.f32', [40, 30])):
+        if n in names:
+            if isinstance(sz, int):
+                m_ = int(n.split('/')[-1].split('.')[1])
+                t_ = n.split('/')[-1].split('.')[2]
+                fields.append((n, [sz] + [sc.rand_scalar(chk.rng, t_, 'nice') for _ in range(sz * m_)]))
+            else:
+                fields.append((n, sc.rand_field(chk.rng, n, sizes=sz, data_mode='nice')))
     if replay:
         rp = json.load(open(replay)).get('replay', {})
         if rp.get('cases'):
